@@ -163,6 +163,8 @@ def _pure_wrapper(orig, label, allow_open=False, skip_first=False):
         global _depth
         if _depth or not any(_mutable(a) for a in args) or not _due('C17'):
             return orig(*args, **kwargs)
+        if skip_first and any(a is args[0] for a in args[1:]):
+            return orig(*args, **kwargs)     # g |= g / g -= g: the right operand IS the mutated one
         _depth += 1
         try:
             before = _snap(args, kwargs, skip_first)
